@@ -39,13 +39,7 @@ func init() {
 			}
 			return 324
 		},
-		Rule: "case = one threaded entry point (Compare plain/tips/identical-only, CompareWeighted, FBP, TBE, TBE with moved-taxa statistics) x one " +
-			"workload (8 trees x 12 taxa, 100 x 30, 400 x 60; 150 x 40 instead in the quick tier) x one delay policy at the verifhook points (none, random yield/sleep, one slow worker, " +
-			"barrier after the first receive), run with 1 thread and then with 2,3,4,8,16, #trees+5 and #branches+6 threads under the race detector; error cases put an " +
-			"Err item, a duplicate-name tree or a taxon-mismatched tree first, in the middle or last; the commands compare trees (plain, --weighted) and compute support fbp|tbe are run as child processes (-t 1, 4, 16) on a file with one unparsable / duplicate-name / taxon-mismatched tree: non-zero exit, no crash, no blocked process. Monitors: per-id equality with the 1-thread " +
-			"records, exactly-once multiset checker over results and hook events, goroutine-state deadlock detector, race-log parser. " +
-			"non-trivial = at least two workers held a tree at the same time in some run of the case (measured from the hook event log), or, for TBE, " +
-			"per-branch hook events were seen with > 1 thread; distinct by (entry point, workload text, policy)",
+		Rule: "case = one threaded entry point (Compare plain/tips/identical-only, CompareWeighted, FBP, TBE, TBE with moved-taxa statistics) x one workload (8 trees x 12 taxa, 100 x 30, 400 x 60; 150 x 40 instead in the quick tier) x one delay policy at the verifhook points (none, random yield/sleep, one slow worker, barrier after the first receive), run with 1 thread and then with 2,3,4,8,16, #trees+5 and #branches+6 threads under the race detector; error cases put an Err item, a duplicate-name tree or a taxon-mismatched tree first, in the middle or last, one of them or 3..6 of them, or put a malformed tree inside a Newick / Nexus / PhyloXML document read by the real multi-tree reader; the commands compare trees (plain, --weighted) and compute support fbp|tbe are run as child processes (-t 1, 4, 16) on a file with one unparsable / duplicate-name / taxon-mismatched tree: non-zero exit, no crash, no blocked process. Monitors: per-id equality with the 1-thread records, exactly-once multiset checker over results and hook events, goroutine-state deadlock detector, race-log parser. non-trivial = at least two workers held a tree at the same time in some run of the case (measured from the hook event log), or, for TBE, per-branch hook events were seen with > 1 thread; distinct by (entry point, workload text, policy)",
 		Assumptions: []string{
 			"schedules are sampled (OS scheduler x delay policies), not enumerated; the oracle is sound for every schedule",
 			"TBE moved-taxa statistics are sums accumulated in worker order and printed with 6 decimals: compared to 2e-6; supports compared bitwise",
